@@ -25,7 +25,8 @@ MIN_NONTRIVIAL = {"quick": 100, "thorough": 1000}
 REQUIRED_FEATURES = ["op:create-a", "op:create-w", "op:recreate-occupied", "op:cp-same-file", "op:cp-cross-file", "op:mv",
                      "op:ln-hard", "op:ln-soft", "op:ln-external", "op:cp-onto-occupied", "op:cp-overwrite",
                      "via:cli", "via:api", "uri:no-leading-slash", "is_cooler:missing-group", "is_cooler:missing-file",
-                     "is_cooler:non-hdf5", "is_cooler:dataset-path", "op:cp-to-root"]
+                     "is_cooler:non-hdf5", "is_cooler:dataset-path", "op:cp-to-root", "op:mv-onto-occupied",
+                     "op:ln-onto-occupied"]
 
 PATHS = ["/a", "/b", "/g/x", "/g/y", "/h", "/k/deep/z"]
 
@@ -140,7 +141,7 @@ def one_history(ctx, cid, rng):
         changed = False
         for step in range(nsteps + 2):
             op = ["create", "create", "cp", "mv", "ln", "lns", "ext", "recreate", "cp_occupied", "cp_overwrite", "create_w",
-                  "cp_root"][int(rng.integers(12))] if step >= 2 else "create"
+                  "cp_root", "mv_occupied", "ln_occupied"][int(rng.integers(14))] if step >= 2 else "create"
             f = files[int(rng.integers(2))] if step >= 2 else files[step]
             via = "cli" if rng.random() < 0.35 else "api"
             live = [(ff, p) for ff in files for p in M.names[ff] if M.resolve(ff, p) is not None]
@@ -245,6 +246,30 @@ def one_history(ctx, cid, rng):
                             add_foreign(df_)
                             M.foreign[df_] = foreign_state(df_)
                         changed = True
+                elif op in ("mv_occupied", "ln_occupied"):
+                    # mv / ln onto a path that already holds something must raise and change NOTHING
+                    cands = [(ff, p) for ff, p in srcs if (ff, p) not in M.link_targets()]
+                    if not cands:
+                        continue
+                    sf, sp = cands[int(rng.integers(len(cands)))]
+                    occ = [p for p in M.names[sf] if p != sp and p != "/"] + ["/foreign"]
+                    dp = occ[int(rng.integers(len(occ)))]
+                    su, du = uri(rng, sf, sp, c), uri(rng, sf, dp, c)
+                    raised = None
+                    try:
+                        if via == "cli":
+                            r = runner.invoke(cli, ["mv" if op == "mv_occupied" else "ln", su, du])
+                            if r.exit_code != 0:
+                                raised = type(r.exception).__name__
+                        elif op == "mv_occupied":
+                            fileops.mv(su, du)
+                        else:
+                            fileops.ln(su, du)
+                    except Exception as e:  # noqa
+                        raised = type(e).__name__
+                    c.feature(f"op:{op.replace('_', '-onto-')}")
+                    c.check(raised is not None, f"{op}-did-not-raise", f"{op[:2]} {rel(su)} -> occupied {rel(du)} did not raise")
+                    rec.update(src=rel(su), dst=rel(du), raised=raised)
                 elif op == "mv":
                     cands = [(ff, p) for ff, p in srcs if (ff, p) not in M.link_targets()]
                     if not cands:
